@@ -13,7 +13,7 @@ replay (R)   : Gen_JsonScan — every class string <= 4 (thorough 5) instantiate
                optional trailing neutral padding) and runs scalar, PFSM, SSE2, AVX2 and the
                dispatcher for both encodings.
 trace (T)    : valid / mutated JSON, random bytes, escape and value runs straddling 16/32/64-byte
-               boundaries, lengths 0..4 KiB (thorough 64 KiB): TLC steps both automata over the logged
+               boundaries, lengths 0..4 KiB (thorough 16 KiB): TLC steps both automata over the logged
                bytes and every engine's final state, IB words and BP words must equal the reference.
 index (T)    : the IB/BP words held by JsonIndex::build / SimpleJsonIndex::build ("consequently every
                index built by the library is the reference index of its input").
@@ -139,8 +139,8 @@ def run(ctx):
     # impl -> spec, engines
     total = 0
     tp = ctx.path("trace-engines.ndjson")
-    rc, out, wall = vlib.sh([b, "record", tp, "seed=%d" % ctx.seed, "inputs=%d" % (1100 if q else 5000),
-                             "maxlen=%d" % (4096 if q else 65536)], timeout=900)
+    rc, out, wall = vlib.sh([b, "record", tp, "seed=%d" % ctx.seed, "inputs=%d" % (1100 if q else 3000),
+                             "maxlen=%d" % (4096 if q else 16384)], timeout=900)
     info = json.loads(out.strip().splitlines()[-1])
     ctx.stage("record engines", wall, **info)
     total += vlib.check_trace(ctx, "Trace_JsonScan.tla", "Trace.cfg", tp, sig_of,
@@ -161,8 +161,8 @@ def run(ctx):
 
     # impl -> spec, the indexes the library builds
     tp = ctx.path("trace-index.ndjson")
-    rc, out, wall = vlib.sh([b, "record", tp, "seed=%d" % (ctx.seed + 1), "inputs=%d" % (250 if q else 1500),
-                             "maxlen=%d" % (2048 if q else 16384), "mode=index"], timeout=900)
+    rc, out, wall = vlib.sh([b, "record", tp, "seed=%d" % (ctx.seed + 1), "inputs=%d" % (250 if q else 1000),
+                             "maxlen=%d" % (2048 if q else 8192), "mode=index"], timeout=900)
     info2 = json.loads(out.strip().splitlines()[-1])
     ctx.stage("record index", wall, **info2)
     total += vlib.check_trace(ctx, "Trace_JsonScan.tla", "Trace.cfg", tp, sig_of,
@@ -184,4 +184,17 @@ def run(ctx):
     ]
 
 
-# MUTANTS (scratch worktree /tmp/wt-c05, VERIF_REPO=/tmp/wt-c05 ./check C05), see bottom of file after runs
+# MUTANTS (scratch worktree /tmp/wt-c05, `VERIF_REPO=/tmp/wt-c05 ./check C05`, quick tier; every one
+# exit 1 with a VIOLATION line; the check stops at the first failing stage):
+#  m1 simd/avx2.rs: v_z_range = 'z'-'a' -> 'z'-'a'-1 (drops z and Z)        CAUGHT replay (byte 90 in InJson, std/dispatch)
+#  m2 simd/x86.rs: eq_plus dropped from the value-char mask                 CAUGHT replay (byte 43, std/sse2)
+#  m3 pfsm_tables.rs: TRANSITION_TABLE['-'] InValue entry 3 -> 0            CAUGHT tables (tab event b=45)
+#  m4 simd/avx2.rs: standard tail chunk starts from the state before the
+#     last full chunk                                                        CAUGHT replay (offset-13 core + trailing pad, std/dispatch)
+#  m5 simd/avx2.rs: simple cursor writes BP 10 instead of 01 for , and :    CAUGHT replay (byte 44, simple/dispatch)
+#  m6 bit_writer.rs: finish() drops a final word holding exactly one bit
+#     (ALL engines still agree with each other)                             CAUGHT replay (input [32], std/scalar vs spec)
+#  m7 simd/x86.rs: simple cursor, an escaped quote in lane 15 of a 16-byte
+#     chunk closes the string                                               CAUGHT replay (`"\"` at offset 13, simple/sse2)
+#  m4+m7 together, trace stage alone (record + Trace_JsonScan, same seed): 309 resp. 64 of the 1100
+#     recorded inputs expose them; TLC rejects at event 85.
